@@ -225,6 +225,32 @@ func readOnly(t *TxnRec) bool {
 // classify names the class of a NON-serializable history (narrow signatures: each class is
 // decided by a transformation under which the history becomes serializable).
 func classify(h *History, flipOrder []int) string {
+	// 0. the final content holds a value that only a transaction that did NOT commit wrote
+	// (written values are unique per run): a failed / rolled-back write was persisted
+	{
+		fin := stateOf(h.Final)
+		ini := stateOf(h.Init)
+		for k, v := range fin {
+			if iv, ok := ini[k]; ok && iv == v {
+				continue
+			}
+			byCommitted, byAborted := false, false
+			for i := range h.Txns {
+				for _, o := range h.Txns[i].Ops {
+					if isWrite(o) && o.Kind != "rem" && o.Key == k && o.Val == v {
+						if h.Txns[i].Committed {
+							byCommitted = true
+						} else {
+							byAborted = true
+						}
+					}
+				}
+			}
+			if byAborted && !byCommitted {
+				return "nonserializable:failed-txn-value-persisted"
+			}
+		}
+	}
 	// 1. committed read-only transactions saw an inconsistent snapshot
 	var ro []int
 	for i := range h.Txns {
